@@ -50,7 +50,7 @@ if '--write' in sys.argv:
     p = os.path.join(ROOT, 'DESIGN.md')
     s = open(p).read()
     i = s.index('| seed | file | change (abridged) | quick check, final state |')
-    j = s.index('No check raised an alarm', i)
+    j = s.index('Every row was re-run', i)
     s = s[:i] + table + '\n' + summary + '\n\n' + s[j:]
     open(p, 'w').write(s)
     print(summary)
